@@ -8,6 +8,8 @@ import GocoinV.Proofs.C19
 namespace GocoinV.Proofs.C19
 open GocoinV GocoinV.Qdb GocoinV.QdbSpec
 
+variable {eg : Bool}
+
 /-- the content of qdbidx.<i> (`i = 0` → qdbidx.0, otherwise qdbidx.1, as in `FS.apply`) -/
 def idxFile (fs : FS) (i : Nat) : Option Bytes := if i = 0 then fs.idx0 else fs.idx1
 
@@ -339,7 +341,7 @@ theorem datRest'_of (seq : Nat) (a b : DB) (h : datRest seq a = datRest seq b) :
   exact ⟨h1, h2, h3, h4, h5, h7, h8, h9, h10⟩
 
 theorem defragRec_exact (s : Nat) (d : DB) (w : BufW) (acc : List (Key × Rec)) (kr : Key × Rec)
-    (hf : d.failed = none) (hc : RecCached kr.2) :
+    (hf : d.failed = none) (he : d.eager = eg) (hc : RecCached eg kr.2) :
     defragRec (defragSink s) (d, w, acc) kr =
       ({ (bufWrite (defragSink s) d w (kr.2.data.getD [])).1 with lastPos := d.lastPos + (kr.2.data.getD []).length },
        (bufWrite (defragSink s) d w (kr.2.data.getD [])).2,
@@ -352,12 +354,14 @@ theorem defragRec_exact (s : Nat) (d : DB) (w : BufW) (acc : List (Key × Rec)) 
   have hds : (bufWrite (defragSink s) d w (kr.2.data.getD [])).1.dataSeq = d.dataSeq := by
     have := congrArg (fun x => x.2.2.2.2.2.2.1) hg
     exact this
+  have hee : (bufWrite (defragSink s) d w (kr.2.data.getD [])).1.eager = eg :=
+    (frame_bufWrite (defragSink s) (defragSink_framed s) d w (kr.2.data.getD [])).eager.trans he
   unfold defragRec
-  simp only [hf, loadrec_cached d.fs kr.2 hc, hlp, hds]
-  rw [freerec_cached _ (by exact hc.2)]
+  simp only [hf, loadrec_cached d.fs kr.2 hc, hlp, hds, hee]
+  rw [freerec_cached _ _ (by exact hc.2)]
 
-theorem defragFold_layout (s : Nat) (l : List (Key × Rec)) (hl : AllCached l) (d : DB) (w : BufW)
-    (acc : List (Key × Rec)) (hf : d.failed = none) :
+theorem defragFold_layout (s : Nat) (l : List (Key × Rec)) (hl : AllCached eg l) (d : DB) (w : BufW)
+    (acc : List (Key × Rec)) (hf : d.failed = none) (he : d.eager = eg) :
     ∃ d' w', l.foldl (defragRec (defragSink s)) (d, w, acc) = (d', w', acc ++ layout d.dataSeq d.lastPos l) ∧
       (datFile s d').map (· ++ w'.buf) = ((datFile s d).map (· ++ w.buf)).map (· ++ (valsOf l).flatten) ∧
       d'.lastPos = d.lastPos + (valsOf l).flatten.length ∧
@@ -383,8 +387,9 @@ theorem defragFold_layout (s : Nat) (l : List (Key × Rec)) (hl : AllCached l) (
       exact this
     obtain ⟨d', w', h1, h2, h3, h4⟩ := ih (fun x hx => hl x (List.mem_cons_of_mem _ hx)) d1
       (bufWrite (defragSink s) d w (kr.2.data.getD [])).2 (acc ++ [(kr.1, { kr.2 with pos := u32 d.lastPos, seq := d.dataSeq })]) hd1f
+      ((frame_bufWrite (defragSink s) (defragSink_framed s) d w (kr.2.data.getD [])).eager.trans he)
     refine ⟨d', w', ?_, ?_, ?_, h4.trans hd1r⟩
-    · simp only [List.foldl_cons, defragRec_exact s d w acc kr hf hc]
+    · simp only [List.foldl_cons, defragRec_exact s d w acc kr hf he hc]
       rw [h1, hd1s]
       obtain ⟨k, r⟩ := kr
       simp [layout, List.append_assoc]
@@ -476,7 +481,7 @@ theorem defrag_disk (db : DB) (h : Cached db) :
   obtain ⟨hs1, hs2, hs3, hs4, hs5, hs8, hs9⟩ := defragStart_disk db
   have hf0 : (defragStart db).failed = none := hs5.trans h.1
   obtain ⟨d', w', hfold, hstream, _, hrest⟩ :=
-    defragFold_layout (u32 (db.dataSeq + 1)) db.index h.2 (defragStart db) {} [] hf0
+    defragFold_layout (u32 (db.dataSeq + 1)) db.index h.2 (defragStart db) {} [] hf0 (defragStart_frame db).eager
   rw [hs3, hs2, List.nil_append] at hfold
   have hd's : d'.dataSeq = (u32 (db.dataSeq + 1)) := by
     have := congrArg (fun x => x.2.2.2.2.2.1) hrest
